@@ -1531,8 +1531,8 @@ class Engine:
             if x is not NotImplemented and x is not None:
                 return x
         # local functions and lambdas are inlined (they have no contract of their own)
-        if isinstance(fv, FuncV):
-            return self.inline(st, fv, args, kw, node)
+        if isinstance(fv, FuncV) and not (recv is None and (mname in self.c.get('pure', {}) or mname in self.registry)):
+            return self.inline(st, fv, args, kw, node)          # (unless the contract gives the local function a contract / declares it pure)
         declared_pure = (mname if recv is None else '.' + mname) in self.c.get('pure', {})
         if hasattr(self, 'arr_call') and not declared_pure:
             x = self.arr_call(st, mname, recv, args, kw, node)
